@@ -294,10 +294,14 @@ def intpow_extra(ctx: Ctx):
     rng = ctx.rng
     b1, b2 = rng.choice([2, 3, 10]), rng.choice([1291, 46341, 70000, 100000])
     n1, n2 = rng.choice([2, 3, 4]), rng.choice([2, 3])
+    # integers between 2**63 and 2**64 (they fit an unsigned 64-bit word, not a signed one), as a literal and as a power;
+    # an integer-valued Conditional as the base of a negative (literal or computed) power
+    edge = rng.choice(["10**19", "2**63", "3**40", "9223372036854775808", "18446744073709551615", "2**64", "-2**63"])
     text = (f"states(x=0.5, y=-0.25)\nparameters(a=0.75)\n"
-            f"frac = {rng.choice([1, 3, 7])}/{b1}**{n1}\nbig = {b2}**{n2}*1e-12\n"
+            f"frac = {rng.choice([1, 3, 7])}/{b1}**{n1}\nbig = {b2}**{n2}*1e-12\nedge = ({edge})*1e-19\n"
             f"nexp = Conditional(Lt(x, 0), 2, -3)\nscale = a*{rng.choice([10, 2, 7])}**nexp + 2**Conditional(Gt(y, 0), -2, 1)\n"
-            f"dx_dt = a*frac - x/{b1}**{n1} + big*1e-3\ndy_dt = -y*(x/{rng.choice([2, 5])}**{n1}) + {b1}**{n1}*a + scale\n")
+            f"cpow = Conditional(Gt(x, 0), 3, 2)**-2 + a*Conditional(Lt(y, 0), 2, 4)**nexp\n"
+            f"dx_dt = a*frac - x/{b1}**{n1} + big*1e-3 + edge\ndy_dt = -y*(x/{rng.choice([2, 5])}**{n1}) + {b1}**{n1}*a + scale + cpow\n")
     # an integer base raised to an integer-valued exponent that is computed (inline or through a named intermediate)
     # and negative on some samples: integer arithmetic refuses it or returns garbage
     pts = [{"x": sx * rng.uniform(0.2, 2), "y": sy * rng.uniform(0.2, 2), "a": rng.uniform(0.5, 2), "t": 0.5, "dt": 0.01}
